@@ -300,6 +300,10 @@ def zernike_fit(opd, mask, modes, normalize=True, rho=None, theta=None):
 
     basis = np.linalg.pinv(basis)
 
+    # samples outside the mask carry no weight: select them out rather than
+    # multiply by a (numerically) zero row of the pseudo-inverse (0*nan is nan)
+    opd = np.where(mask != 0, opd, 0)
+
     return np.einsum('ij,i->j', basis, opd.ravel())
 
 
